@@ -453,34 +453,56 @@ def v2_spec(pid, level, rule, profile, **kw):
     return runner.CheckSpec(pid=pid, level=level, rule=rule, run_one=run_one, replay_fn=replay_fn, minimise_fn=minimise_fn, components=comps, known_matchers=known.MATCHERS, **kw)
 
 
-def combine(pid, a, b, every=3, **kw):
-    """One check made of two engines: run index % every == every-1 goes to b."""
+def combine_n(pid, specs, pattern, **kw):
+    """One check made of several engines; run index r goes to specs[pattern[r % len(pattern)]]."""
 
     def run_one(seed, run):
-        use_b = run % every == every - 1
-        d = (b if use_b else a).run_one(seed, run)
+        k = pattern[run % len(pattern)]
+        d = specs[k].run_one(seed, run)
         if "world" in d:
-            d["world"] = dict(d["world"], _engine="b" if use_b else "a")
+            d["world"] = dict(d["world"], _engine=k)
         return d
 
     def pick(doc):
-        return b if doc.get("world", {}).get("_engine") == "b" else a
+        return specs[int(doc.get("world", {}).get("_engine", 0))]
 
+    a = specs[0]
     return runner.CheckSpec(
         pid=pid,
         level=a.level,
-        rule=a.rule + " || " + b.rule,
+        rule=" || ".join(sp.rule for sp in specs),
         run_one=run_one,
         replay_fn=lambda doc: pick(doc).replay_fn(doc),
-        minimise_fn=lambda doc: pick(doc).minimise_fn(doc),
-        components={k: a.components.get(k, []) + b.components.get(k, []) for k in ("real", "model_or_stub", "not_exercised")},
+        minimise_fn=lambda doc: (pick(doc).minimise_fn(doc) if pick(doc).minimise_fn else doc),
+        components={k: sorted({x for sp in specs for x in sp.components.get(k, [])}) for k in ("real", "model_or_stub", "not_exercised")},
         known_matchers=known.MATCHERS,
-        runs=a.runs,
-        wall_cap_s=a.wall_cap_s,
-        assumptions=a.assumptions + b.assumptions,
-        expected_probes=a.expected_probes + b.expected_probes,
+        runs=kw.pop("runs", a.runs),
+        wall_cap_s=kw.pop("wall_cap_s", a.wall_cap_s),
+        assumptions=[x for sp in specs for x in sp.assumptions],
+        expected_probes=[x for sp in specs for x in sp.expected_probes],
         **kw,
     )
+
+
+def combine(pid, a, b, every=3, **kw):
+    return combine_n(pid, [a, b], [0] * (every - 1) + [1], **kw)
+
+
+def scen_spec(pid, rule, **kw):
+    from . import scen
+
+    def run_one(seed, run):
+        return runner.result_to_dict(scen.run_scenario(pid, seed, run, {}), keep_trace=True)
+
+    def replay_fn(doc):
+        return [v.to_json() for v in scen.run_scenario(pid, 0, 0, {}, doc=doc).violations]
+
+    comps = {
+        "real": ["pulser.Sequence public API, pulser_simulation.QutipEmulator, SimConfig, simresults sampling, QuTiP solvers"],
+        "model_or_stub": ["analytic values and RefProp (piecewise-constant expm propagation of the programmed pulses) in simlib/scen.py", "owned numpy RNG stream"],
+        "not_exercised": [],
+    }
+    return runner.CheckSpec(pid=pid, level="exploration", rule=rule, run_one=run_one, replay_fn=replay_fn, minimise_fn=None, components=comps, known_matchers=known.MATCHERS, **kw)
 
 
 def _build2():
@@ -513,7 +535,13 @@ def _build2():
         assumptions=["solver tolerances: states compared at 1e-7 (legacy and V2 share the solver)", "analytic Rabi / zero-drive / bit-order scenarios are part of the thorough tier when built"],
         expected_probes=["legacy_v2_compared", "mixed_state_values", "three_level_values"],
     )
-    _REG["C11"] = combine("C11", _REG["C11"], c11_hist, every=3)
+    c11_scen = scen_spec(
+        "C11",
+        "EMU-SIM scenarios with seeded parameters: resonant constant pulse on an isolated atom vs sin^2(Omega t/2) in every basis; all-zero drive leaves the state unchanged; single-excited product states sample to the bitstring with that bit set, in register order, with r/h/|1> -> 1; detection errors (epsilon, epsilon') shift the measured rate as configured (2e5 shots, exact binomial tail under the owned RNG); sampling distributions sum to one",
+        assumptions=["analytic comparisons at 2e-3 (solver tolerance)"],
+        expected_probes=[],
+    )
+    _REG["C11"] = combine_n("C11", [_REG["C11"], c11_hist, c11_scen], [0, 0, 1, 2], runs={"quick": 1600, "thorough": 40000})
 
     _c18_reg()
     _REG["C05"] = emu_spec(
@@ -535,6 +563,21 @@ def _build2():
         expected_probes=["template_restart_abstract", "template_restart_legacy", "template_schema_validated"],
     )
     _REG["C04"] = combine("C04", _REG["C04"], c04_tmpl)
+
+    c07_scen = scen_spec(
+        "C07",
+        "EMU-SIM Ramsey scenarios: pi/2 - phase shift phi delivered by a seeded mechanism (explicit shift, post_phase_shift, split over two shifts, index-based shift, shift made while another channel of the same basis exists) - pi/2 on an isolated atom, global or local channel, either basis; excitation probability vs cos^2(phi/2)",
+        assumptions=["analytic comparison at 2e-3"],
+        expected_probes=[],
+    )
+    _REG["C07"] = combine_n("C07", [_REG["C07"], c07_scen], [0, 0, 0, 0, 0, 0, 0, 1])
+    c15_scen = scen_spec(
+        "C15",
+        "EMU-SIM drift scenarios: an EOM block (enable / delays / EOM pulses of seeded durations and phases / optional setpoint change / disable, all with correct_phase_drift=True, non-zero off-detuning, clock 1 or 4) on one atom; emulated excitation vs RefProp of the same pulses with zero off-detuning",
+        assumptions=["comparison at 1e-2 (the emulator interpolates between 1 ns samples, smoothing the on/off detuning steps)"],
+        expected_probes=[],
+    )
+    _REG["C15"] = combine_n("C15", [_REG["C15"], c15_scen], [0, 0, 0, 0, 0, 0, 0, 1])
 
 
 def get(pid):
